@@ -298,11 +298,34 @@ pub fn leaf_poll(id: Cid, cx: &mut Context<'_>) -> Option<Res> {
             s
         };
         let pct = w.midfire_pct;
-        let nfire = if pct > 0 && w.chance(pct) { 1 + w.below(2) } else { 0 };
+        let nfire = if w.small_mode {
+            0
+        } else if pct > 0 && w.chance(pct) {
+            1 + w.below(2)
+        } else {
+            0
+        };
         (true, nfire, step)
     });
     if !run {
         return None;
+    }
+    // systematic sweep: one decision per leaf poll — nothing, or the latest waker of any one child (own or sibling)
+    let small_pick = w(|w| {
+        if !(w.small_mode && w.midfire_pct > 0) {
+            return None;
+        }
+        let cands: Vec<Cid> = w.ch.iter().enumerate().filter(|(_, c)| !c.wakers.is_empty() && matches!(c.kind, Kind::LeafFut | Kind::LeafStr)).map(|(i, _)| i).collect();
+        let k = w.below(1 + cands.len());
+        if k == 0 {
+            None
+        } else {
+            let c = cands[k - 1];
+            Some((c, w.ch[c].wakers.len() - 1))
+        }
+    });
+    if let Some((c, i)) = small_pick {
+        fire(c, i, false, FireCtx::MidPoll(id));
     }
     // mid-poll cross fires of arbitrary handed-out wakers (own / sibling, latest / stale)
     for _ in 0..nfire {
